@@ -516,6 +516,18 @@ func (fc *FnCtx) applyContract(s *CallSite, ct *FuncContract, callee *ssa.Functi
 	for _, r := range ct.Ensures {
 		fc.assume(sc2.trBool(r.E))
 	}
+	if ct.Flags["pure"] && callee != nil {
+		var as []Term
+		if s.recv != nil {
+			as = append(as, *s.recv)
+		}
+		as = append(as, s.args...)
+		for i, r := range s.results {
+			uf, rs := fc.eng.pureUF(callee, i)
+			fc.assume(Eq(r, App(rs, uf, as...)))
+		}
+		fc.assumeNote("function " + ct.Name + " is pure: its result is a function of its arguments (no reads of mutable memory)")
+	}
 	if ct.Assumed {
 		fc.assumeNote("assumed contract of " + ct.Name)
 	}
@@ -577,6 +589,15 @@ func (fc *FnCtx) doBuiltin(x *ssa.Call, b *ssa.Builtin) bool {
 	switch b.Name() {
 	case "len":
 		fc.vals[x] = TV(fc.lenOf(args[0].Type(), fc.term(args[0]), fc.env))
+		if mt, ok := args[0].Type().Underlying().(*types.Map); ok {
+			// cardinality facts: len >= 0, and an empty map has no keys
+			m := fc.term(args[0])
+			dom, _, ln := fc.mapVars(mt)
+			n := Select(fc.lookup(ln), m)
+			ks := fc.eng.U.SortOf(mt.Key())
+			fc.assume(T(SBool, "(>= %s 0)", n.S))
+			fc.assume(T(SBool, "(=> (= %s 0) (forall ((k %s)) (! (not (select %s k)) :pattern ((select %s k)))))", n.S, ks, Select(fc.lookup(dom), m).S, Select(fc.lookup(dom), m).S))
+		}
 		return true
 	case "cap":
 		switch args[0].Type().Underlying().(type) {
